@@ -195,7 +195,7 @@ pub fn check_cli(ctx_cli: &std::path::Path, tag: &str, pre: &[String], pos: &[St
     let pre_s: Vec<&str> = pre.iter().map(|s| s.as_str()).collect();
     let pos_s: Vec<&str> = pos.iter().map(|s| s.as_str()).collect();
     let out = if unwritable {
-        let base = std::path::PathBuf::from("/verif/.build/scratch/no-such-directory/deeper/out");
+        let base = std::path::PathBuf::from(format!("{}/.build/scratch/no-such-directory/deeper/out", crate::common::verif_dir()));
         cli::run_with_outfile(ctx_cli, &base, &pre_s, &pos_s, &[("RAYON_NUM_THREADS", "2".to_string())], 300, true)
     } else {
         cli::run(ctx_cli, tag, &pre_s, &pos_s, &[("RAYON_NUM_THREADS", "2".to_string())], 300)
